@@ -1,8 +1,12 @@
 """C02 — constitutive stiffness = Hessian of the Donnell CLT strain energy.
 T: Gen/Panel/*.lean regenerated from the .pyx sources; theorems Props/C02.lean re-checked.
+H: Model/PanelGlue.lean (hand model of the glue of Panel.calc_k0 / calc_kG0 / calc_kM / calc_kA / calc_cA / calc_kT) vs the running
+   _panel.py: kernel calls recorded by wrapping modelDB.db[model]['matrices' / 'matrices_num'] (glue_correspondence).
 V: IR of fk0/fk0y1y2 interpreted on random panels vs Panel.calc_k0(finalize=False) of the running code.
 Implementation arm: energy-Hessian oracle (operator tables x exact Bardell integrals) vs Panel.calc_k0().
 """
+from fractions import Fraction
+
 import numpy as np
 
 from tools import panel_v
@@ -10,8 +14,11 @@ from tools.props import panel_common as pc
 from tools.translate import pyx
 
 TRUSTED = pc.TRUSTED_T + [
-    'Panel.calc_k0 glue (dispatch on y1/y2, + fkG0(N*_cte), finalize_symmetric_matrix) is not modelled in Lean: '
-    'it is covered by the whole-matrix oracle comparison on the explored panels only',
+    'hand model lean/CompmechVerif/Model/PanelGlue.lean of the Python glue Panel._rebuild / get_size / check_c / calc_k0 / calc_kG0 / calc_kT / '
+    'calc_kM / calc_kA / calc_cA (which kernel, every scalar argument, r / alpharad carried by the panel, combination of the results, '
+    'exception classes, attributes left behind): tied to the running _panel.py by the recorded-kernel-call correspondence '
+    'glue_correspondence (model run at Q on the exact float inputs through drivers/C02.lean) on the explored states / arguments only; '
+    'the compiled kernels are parameters of that model (their models are the regenerated Gen/Panel files)',
 ]
 ASSUMPTIONS = [
     'entry theorems are per integration cell (one constant-radius section for conical panels); summation over '
@@ -201,9 +208,695 @@ def reuse_case(ctx, rng, t=None):
     return None, None
 
 
+
+# ----------------------------------------------------------------------------- H: Model/PanelGlue.lean vs the running glue of _panel.py
+# The hand model of Panel.calc_k0 / calc_kG0 / calc_kM / calc_kA / calc_cA (+ calc_kT) predicts, for a panel STATE and call arguments,
+# the list of kernel calls (kernel, every scalar argument, the r / alpharad the panel object carries at that moment), the way the kernel
+# results are combined, the exception class, and the attributes left behind.  The real calls are recorded by replacing the module objects
+# db[model]['matrices'] / ['matrices_num'] by recorders which either delegate to the compiled kernel ('real') or hand back a small random
+# integer COO matrix ('fake': the panel definition need not be one the kernels accept, and the combination is compared exactly).
+GLUE_METHODS = ('k0', 'kG0', 'kM', 'kA', 'cA', 'kT')
+GLUE_TAG = {'plate_clt_donnell_bardell': 'plate', 'plate_clt_donnell_bardell_w': 'platew',
+            'cpanel_clt_donnell_bardell': 'cpanel', 'kpanel_clt_donnell_bardell': 'kpanel'}
+GLUE_DOFS = {'plate': 3, 'platew': 1, 'cpanel': 3, 'kpanel': 3}
+GLUE_ERRORS = [('ValueError', 'valid models are', 'rebuildModel'), ('ValueError', 'stack must be defined', 'rebuildStack'),
+               ('ValueError', 'laminaprop must be defined', 'rebuildLaminaprop'), ('ValueError', 'plyt must be defined', 'rebuildPlyt'),
+               ('TypeError', 'must be a NumPy ndarray', 'cNotArray'), ('ValueError', 'must be a 1-D', 'cNdim'),
+               ('ValueError', 'same size as the global', 'cSize'), ('NotImplementedError', 'Partial domain', 'stripK0State'),
+               ('NotImplementedError', 'Only y1=0', 'stripKGState'), ('KeyError', 'matrices_num', 'noNumModule'), ('KeyError', '', 'noModel'),
+               ('ValueError', '"mu"', 'muMissing'), ('NotImplementedError', 'Conical', 'conical'), ('TypeError', 'not iterable', 'modelNoneIn'),
+               ('ValueError', 'cannot be a NoneValue', 'machNone'), ('ValueError', 'must be >= 1', 'machBelowOne'),
+               ('ValueError', 'Invalid flow', 'flowInvalid'), ('AttributeError', "'size'", 'noSizeAttr'), ('AttributeError', 'has no attribute', 'noKernel'),
+               ('RuntimeError', 'lam object is None', 'lamNone')]
+
+
+def _opt(rng, v, none=0.2, zero=0.2):
+    r_ = rng.random()
+    return None if r_ < none else (0. if r_ < none + zero else v)
+
+
+def gen_triple(rng, kind):
+    """three membrane resultants: all None / None-or-0.0 / cancelling / general (single components, pure shear, pairs, all three)"""
+    if kind == 'none':
+        return (None, None, None)
+    if kind == 'zeros':
+        t = [rng.choice([None, 0.]) for _ in range(3)]
+        t[rng.randrange(3)] = 0.
+        return tuple(t)
+    if kind == 'cancel':
+        while True:
+            t = gen_preload(rng)
+            if sum(x or 0. for x in t) == 0.:
+                return t
+    return gen_preload(rng)
+
+
+def gen_glue_case(rng, t):
+    base = pc.gen_panel_case(rng, max_mn=2, y12=False)
+    base['flags'] = {k: float(v) for k, v in base['flags'].items()}
+    meth = ('k0', 'kG0', 'kM', 'kA', 'cA', 'kT', 'k0', 'kA', 'kG0', 'kM')[t % 10]
+    real = rng.random() < 0.35
+    tag = GLUE_TAG[base['model']]
+    own = GLUE_DOFS[tag] * base['m'] * base['n']
+    b = base['b']
+    g = dict(base=base, method=meth, real=real, fake_seed=rng.randrange(10 ** 9))
+    # ---- the definition
+    ypat = rng.choice(['none', 'none', 'both0', 'both0', 'both', 'both', 'y1only', 'y1zero', 'y2only'])
+    yi = sorted([rng.uniform(0.1, 0.45) * b, rng.choice([rng.uniform(0.55, 0.95) * b, b])])
+    g['ypat'] = ypat
+    g['y1'], g['y2'] = {'none': (None, None), 'both0': (0., yi[1]), 'both': (yi[0], yi[1]), 'y1only': (yi[0], None),
+                        'y1zero': (0., None), 'y2only': (None, yi[1])}[ypat]
+    g['prepat'] = rng.choice(['none', 'zeros', 'cancel', 'general', 'general'])
+    g['cte'] = gen_triple(rng, g['prepat'])
+    g['loadpat'] = rng.choice(['none', 'zeros', 'cancel', 'general', 'general', 'general'])
+    g['loads'] = gen_triple(rng, g['loadpat'])
+    g['offset'] = rng.choice([0., base['offset'], rng.choice([-1., 1.]) * rng.uniform(0.2, 2.) * base['plyt']])
+    g['mu'] = None if rng.random() < 0.15 else base['mu']
+    g['flow'] = rng.choice(['x', 'x', 'X', 'y', 'Y', 'z'])
+    if rng.random() < 0.55:
+        g['aero'] = dict(beta=rng.uniform(0.5, 50.), gamma=_opt(rng, rng.uniform(0.1, 5.), 0.3, 0.3), aeromu=_opt(rng, rng.uniform(0.1, 2.), 0.4, 0.1),
+                         Mach=rng.choice([None, 2.]), rho_air=None, V=None, speed_sound=None)
+    else:
+        g['aero'] = dict(beta=None, gamma=_opt(rng, 3.), aeromu=None, Mach=rng.choice([None, 0.5, 1, 1., 1.5, 3.]),
+                         rho_air=rng.uniform(0.2, 1.3), V=rng.uniform(300., 900.), speed_sound=rng.uniform(290., 340.))
+    g['ortho'] = rng.random() < 0.2
+    if real:
+        g['model_attr'], g['r'], g['alphadeg'] = tag, base['r'], base['alphadeg']
+        if tag == 'kpanel' and rng.random() < 0.3:
+            g['alphadeg'] = None
+        g['stack_ok'], g['lp'], g['plyt'] = True, True, True
+        g['lps'] = g['plyts'] = True if meth in ('kM', 'kA', 'cA') else rng.random() < 0.3
+        g['lam'] = True if meth in ('kM', 'kA', 'cA') else rng.random() < 0.5
+    else:
+        g['model_attr'] = tag if rng.random() < 0.9 else rng.choice(['unset', 'unset', 'invalid'])
+        g['r'] = rng.choice([base['r'], base['r'], None, 0., rng.uniform(0.5, 5.)])
+        g['alphadeg'] = rng.choice([base['alphadeg'], base['alphadeg'], None, 0., 12.5])
+        if g['model_attr'] == 'unset':
+            # all four branches of the model selection of _rebuild: (r, alphadeg) given or not
+            g['r'], g['alphadeg'] = rng.choice([(None, None), (None, None), (2.5, None), (2.5, 10.), (None, 10.), (0., None)])
+        g['stack_ok'] = rng.random() > 0.04
+        g['lp'] = rng.random() > 0.06
+        g['plyt'] = rng.random() > 0.06
+        g['lps'], g['plyts'] = rng.random() < 0.3, rng.random() < 0.3
+        g['lam'] = rng.random() < 0.5
+    g['alstale'] = rng.choice([None, None, 7.5, 0.])
+    g['size_attr'] = rng.choice(['absent', 'own', 'own'] if real else ['absent', 'own', 'own', 'other'])
+    # ---- the call
+    pad = rng.choice([0, 0, 3, 7])
+    g['size'] = own + pad if (pad or rng.random() < 0.3) else None
+    r0 = rng.choice([0, pad])
+    g['row0'], g['col0'] = rng.choice([(None, None), (r0, r0), (r0, r0), (r0, None), (None, r0)])
+    if not real and rng.random() < 0.15:
+        g['col0'] = rng.randrange(0, pad + 1)
+    g['finalize'] = rng.random() < 0.6
+    g['c'] = 'none'
+    g['F'] = False
+    g['nx'] = g['ny'] = None
+    g['nl'] = False
+    if meth in ('k0', 'kG0', 'kT'):
+        g['c'] = rng.choice(['none'] * 14 + ['ok'] * 6 + ['wrongsize', '2d', 'list'])
+        g['F'] = rng.random() < 0.25
+        g['nx'], g['ny'] = rng.choice([(None, None), (2, 3), (3, None), (None, 2)])
+        g['nl'] = rng.random() < 0.5
+        if real and (g['c'] != 'none' or g['F']):
+            # the compiled numerical kernels index the Ritz vector with the placement offsets: keep them inside it
+            g['size'], g['row0'], g['col0'] = rng.choice([None, own]), rng.choice([None, 0]), rng.choice([None, 0])
+            if g['size_attr'] == 'other':
+                g['size_attr'] = 'own'
+    g['aeromu_arg'] = rng.uniform(0.1, 3.)
+    g['prior'] = rng.random() < 0.3
+    return g
+
+
+class _GlueRec(object):
+    """stands for one kernel module: records every call of a kernel function and delegates to the compiled one or fakes its result"""
+    def __init__(self, mod, tag, log, render, real, frng):
+        self.__dict__.update(_mod=mod, _tag=tag, _log=log, _render=render, _real=real, _frng=frng)
+
+    def __getattr__(self, nm):
+        f = getattr(self._mod, nm)            # a kernel the module does not have: the module's own AttributeError
+        if not callable(f) or nm.startswith('_'):
+            return f
+
+        def g(*a, **k):
+            entry = self._render(self._tag, nm, a, k)
+            if self._real:
+                out = f(*a, **k)
+            else:
+                out = _fake_out(entry['size'], self._frng)
+            entry['out'] = out.copy()
+            self._log.append(entry)
+            return out
+        return g
+
+
+def _fake_out(size, frng):
+    from scipy.sparse import coo_matrix
+    size = max(int(size), 1)
+    pos = [(frng.randrange(size), frng.randrange(size)) for _ in range(frng.randint(2, 6))]
+    d = frng.randrange(size)
+    pos += [(d, d), pos[0]]                                       # a diagonal entry and a duplicate position
+    if size > 1:
+        i, j = sorted(frng.sample(range(size), 2))
+        pos += [(i, j), (j, i)]                                   # strictly upper and strictly lower
+    vals = [float(frng.choice([-1, 1]) * frng.randint(1, 9)) for _ in pos]
+    return coo_matrix((vals, ([r for r, _ in pos], [c for _, c in pos])), shape=(size, size), dtype=float)
+
+
+def _qs(x):
+    from tools.common import q
+    if x is None:
+        return '-'
+    try:
+        return q(x)
+    except (ValueError, OverflowError):
+        return 'nonfinite'
+
+
+def glue_run(g, prior_only=False, tracer=None):
+    """runs the real glue on the case; returns dict(line=<driver line without results>, log, outcome, post, ...)"""
+    import random as _random
+    from compmech.panel import modelDB, _panel
+    import compmech.composite.laminate as lam_mod
+    base = g['base']
+    tag = GLUE_TAG[base['model']]
+    p = pc.make_panel(base)
+    frng = _random.Random(g['fake_seed'])
+    own = GLUE_DOFS[tag] * base['m'] * base['n']
+
+    def define(p, alt=False):
+        p.model = {'unset': None, 'invalid': 'no_such_model'}.get(g['model_attr'], base['model'])
+        p.r, p.alphadeg = g['r'], g['alphadeg']
+        p.y1, p.y2 = (g['y1'], g['y2']) if not alt else ((None, None) if g['y1'] is not None and g['y2'] is not None else (0., 0.5 * base['b']))
+        p.offset = g['offset'] if not alt else g['offset'] + 0.5 * base['plyt']
+        p.mu = g['mu'] if not alt else 17.
+        p.Nxx, p.Nyy, p.Nxy = g['loads'] if not alt else (3., -4., 5.)
+        p.Nxx_cte, p.Nyy_cte, p.Nxy_cte = g['cte'] if not alt else ((None, None, None) if any(g['cte']) else (2., 0., -1.))
+        p.flow = g['flow'] if not alt else ('y' if g['flow'].lower() == 'x' else 'x')
+        for k_, v_ in g['aero'].items():
+            setattr(p, k_, v_)
+        if alt and p.beta is not None:
+            p.beta, p.gamma = p.beta * 2., 0.25
+        p.force_orthotropic_laminate = bool(g['ortho'])
+        p.stack = list(base['stack']) if g['stack_ok'] else []
+        p.laminaprop = tuple(base['laminaprop']) if g['lp'] else None
+        p.plyt = base['plyt'] if g['plyt'] else None
+        p.laminaprops = [tuple(base['laminaprop']) for _ in base['stack']] if g['lps'] else None
+        p.plyts = [base['plyt'] for _ in base['stack']] if g['plyts'] else None
+        if g['lam']:
+            p.lam = lam_mod.read_stack(list(base['stack']), plyt=base['plyt'], laminaprop=tuple(base['laminaprop']), offset=p.offset)
+            p.F = p.lam.ABD
+        else:
+            p.lam, p.F = None, None
+        if g['alstale'] is None:
+            p.__dict__.pop('alpharad', None)
+        else:
+            p.alpharad = np.deg2rad(g['alstale'])
+        if g['size_attr'] == 'absent':
+            p.__dict__.pop('size', None)
+        else:
+            p.size = own if g['size_attr'] == 'own' else own + 5
+
+    size_eff = g['size'] if g['size'] is not None else own
+    crng = np.random.RandomState(g['fake_seed'] % (2 ** 31))
+    cvec = {'none': None, 'ok': crng.uniform(-1, 1, size_eff) * 1e-3, 'wrongsize': crng.uniform(-1, 1, size_eff + 1),
+            '2d': crng.uniform(-1, 1, (size_eff, 1)), 'list': [0.5] * size_eff}[g['c']]
+    Fgiven = None
+    if g['F']:
+        Fgiven = lam_mod.read_stack(list(base['stack']), plyt=base['plyt'], laminaprop=tuple(base['laminaprop']), offset=0.).ABD.copy()
+    kw = dict(silent=True, finalize=g['finalize'])
+    if g['method'] != 'cA':
+        for k_ in ('size', 'row0', 'col0'):
+            if g[k_] is not None:
+                kw[k_] = g[k_]
+    if g['method'] in ('k0', 'kG0', 'kT'):
+        if cvec is not None:
+            kw['c'] = cvec
+        if Fgiven is not None:
+            kw['Fnxny'] = Fgiven
+        for k_ in ('nx', 'ny'):
+            if g[k_] is not None:
+                kw[k_] = g[k_]
+        if g['method'] != 'kT' and g['nl']:
+            kw['NLgeom'] = True
+    meth = getattr(p, 'calc_' + g['method'])
+    args = (g['aeromu_arg'],) if g['method'] == 'cA' else ()
+
+    log = []
+    missing = object()
+
+    def render(mtag, nm, a, k):
+        e = dict(mod=mtag, name=nm, size=1, strs=[], al=missing, r=missing)
+        pan = None
+        for i_, x in enumerate(a):
+            if x is p:
+                pan = x
+                e['strs'].append('P')
+                if i_ + 1 < len(a) and isinstance(a[i_ + 1], (int, np.integer)):
+                    e['size'] = int(a[i_ + 1])
+            elif isinstance(x, np.ndarray):
+                if x.ndim == 1:
+                    if cvec is not None and isinstance(cvec, np.ndarray) and x.shape == cvec.shape and np.array_equal(x, cvec):
+                        e['strs'].append('c')
+                    elif not x.any():
+                        e['strs'].append('zeros%d' % x.shape[0])
+                    else:
+                        e['strs'].append('array?')
+                elif Fgiven is not None and x is Fgiven:
+                    e['strs'].append('Fnxny')
+                elif x is getattr(p, 'F', None) or (p.lam is not None and x is p.lam.ABD):
+                    e['strs'].append('F')
+                else:
+                    e['strs'].append('array?')
+            elif isinstance(x, (bool, np.bool_)):
+                e['strs'].append('bool?')
+            elif isinstance(x, (int, np.integer)):
+                e['strs'].append(str(int(x)))
+            elif isinstance(x, (float, np.floating)):
+                e['strs'].append(_qs(x))
+            else:
+                e['strs'].append('obj?%s' % type(x).__name__)
+        for k_, v_ in sorted(k.items()):
+            e['strs'].append('%s=%s' % (k_, int(v_) if isinstance(v_, (int, np.integer)) and not isinstance(v_, bool) else repr(v_)))
+        if pan is not None:
+            e['r'] = pan.__dict__.get('r', missing)
+            e['al'] = pan.__dict__.get('alpharad', missing)
+        return e
+
+    offsets = []
+
+    class LamProxy(object):
+        def __getattr__(self, nm):
+            f = getattr(lam_mod, nm)
+            if nm != 'read_stack':
+                return f
+
+            def rs(*a, **k):
+                offsets.append(k.get('offset', 'default'))
+                return f(*a, **k)
+            return rs
+
+    saved = {}
+
+    def install(record):
+        for mname, ent in modelDB.db.items():
+            for key in ('matrices', 'matrices_num'):
+                if key in ent:
+                    saved[(mname, key)] = ent[key]
+                    ent[key] = _GlueRec(ent[key], 'mat' if key == 'matrices' else 'num', log if record else [], render, g['real'] and record, frng)
+        saved['lam'] = _panel.laminate
+        _panel.laminate = LamProxy()
+
+    def restore():
+        _panel.laminate = saved.pop('lam')
+        for (mname, key), v_ in saved.items():
+            modelDB.db[mname][key] = v_
+        saved.clear()
+
+    if g['prior']:
+        # the same method was already evaluated on ANOTHER definition of this object (whatever it left behind must not matter)
+        define(p, alt=True)
+        install(False)
+        try:
+            pc.quiet(meth, *args, **kw)
+        except Exception:                                    # noqa
+            pass
+        finally:
+            restore()
+        del offsets[:]
+    define(p)
+    if prior_only:
+        return p
+    a = g['aero']
+    M = a['Mach']
+    qv = 1.
+    if M is not None and M >= 1:
+        Me = 1.0001 if M == 1 else M
+        qv = (Me ** 2 - 1) ** 0.5
+    st = p.__dict__
+    mtag = 'unset' if p.model is None else GLUE_TAG.get(p.model, 'invalid')
+    fl = p.flow.lower() if p.flow.lower() in ('x', 'y') else 'other'
+    pline = ('model=%s a=%s b=%s r=%s alphadeg=%s alfrom=%s y1=%s y2=%s offset=%s mu=%s Nxx=%s Nyy=%s Nxy=%s NxxCte=%s NyyCte=%s NxyCte=%s flow=%s '
+             'beta=%s gamma=%s aeromu=%s mach=%s rho=%s V=%s ainf=%s q=%s m=%d n=%d nx=%d ny=%d size=%s ortho=%d stack=%d lps=%d lp=%d plyts=%d plyt=%d lam=%d'
+             % (mtag, _qs(p.a), _qs(p.b), _qs(p.r), _qs(p.alphadeg), _qs(g['alstale']), _qs(p.y1), _qs(p.y2), _qs(p.offset), _qs(p.mu),
+                _qs(p.Nxx), _qs(p.Nyy), _qs(p.Nxy), _qs(p.Nxx_cte), _qs(p.Nyy_cte), _qs(p.Nxy_cte), fl, _qs(p.beta), _qs(p.gamma), _qs(p.aeromu),
+                _qs(p.Mach), _qs(p.rho_air or 0.), _qs(p.V or 0.), _qs(p.speed_sound or 1.), _qs(qv), p.m, p.n, p.nx, p.ny,
+                '-' if 'size' not in st else str(st['size']), bool(p.force_orthotropic_laminate), len(p.stack or []), bool(p.laminaprops),
+                bool(p.laminaprop), bool(p.plyts), p.plyt is not None, p.lam is not None))
+    cdesc = '-'
+    if g['c'] != 'none':
+        cdesc = '%d:%d:%d' % (isinstance(cvec, np.ndarray), getattr(cvec, 'ndim', 0), cvec.shape[0] if isinstance(cvec, np.ndarray) else 0)
+    aline = ('size=%s row0=%s col0=%s fin=%d c=%s nx=%s ny=%s F=%d nl=%d aeromu=%s'
+             % tuple(['-' if g[k_] is None else str(g[k_]) for k_ in ('size', 'row0', 'col0')] + [g['finalize'], cdesc]
+                     + ['-' if g[k_] is None else str(g[k_]) for k_ in ('nx', 'ny')] + [g['F'], g['nl'], _qs(g['aeromu_arg'])]))
+    import contextlib
+    install(True)
+    try:
+        try:
+            with (tracer if tracer is not None else contextlib.nullcontext()):
+                ret = pc.quiet(meth, *args, **kw)
+            outcome = ('ok', ret)
+        except Exception as e:                               # noqa
+            outcome = ('err', type(e).__name__, str(e))
+    finally:
+        restore()
+    post = dict(model='unset' if p.model is None else GLUE_TAG.get(p.model, 'invalid'), r=p.__dict__.get('r'), al=p.__dict__.get('alpharad', missing),
+                size=p.__dict__.get('size'), mach=p.Mach, lam=p.lam is not None, lps=bool(p.laminaprops), plyts=bool(p.plyts))
+    return dict(p=p, pline=pline, aline=aline, log=log, outcome=outcome, post=post, offsets=offsets, missing=missing)
+
+
+def glue_line(g, run):
+    from tools.common import q
+    res, support = [], set()
+    for e in run['log']:
+        o = e['out'].tocoo() if not g['real'] else e['out'].tocsr().tocoo()
+        res.append(' '.join('%d %d %s' % (r_, c_, q(v_)) for r_, c_, v_ in zip(o.row, o.col, o.data)))
+        for r_, c_ in zip(o.row, o.col):
+            support.add((int(r_), int(c_)))
+            support.add((int(c_), int(r_)))
+    probes = sorted(support)
+    if len(probes) > 240:
+        import random as _random
+        probes = sorted(_random.Random(g['fake_seed']).sample(probes, 240))
+    run['support'], run['probes'] = support, probes
+    return 'C02 glue %s | %s | %s | %s | %s' % (g['method'], run['pline'], run['aline'], ' ; '.join(res),
+                                             ' '.join('%d %d' % pq for pq in probes))
+
+
+def _same_q(a, b, exact):
+    from tools.common import unq
+    if a == b:
+        return True
+    if exact or '/' not in a or '/' not in b:
+        return False
+    x, y = unq(a), unq(b)
+    return abs(x - y) <= abs(y) * Fraction(1, 10 ** 12)
+
+
+def glue_compare(g, run, rep):
+    """None or a text describing the first difference between the model reply and what the running glue did"""
+    from tools.common import unq, close
+    missing = run['missing']
+    parts = [x.strip() for x in rep.split('|')]
+    post_s = None
+    exact = not (g['method'] == 'kA' and g['aero']['beta'] is None)          # Mach route: sqrt and rounding of the derived coefficients
+
+    def post_bad(s):
+        kv = dict(w.split('=') for w in s.split())
+        po = run['post']
+        if kv['model'] != po['model']:
+            return 'attribute model afterwards: model %s, implementation %s' % (kv['model'], po['model'])
+        if kv['r'] != _qs(po['r']):
+            return 'attribute r afterwards: model %s, implementation %r' % (kv['r'], po['r'])
+        if (kv['al'] == '-') != (po['al'] is missing) or (kv['al'] != '-' and float(np.deg2rad(float(unq(kv['al'])))) != float(po['al'])):
+            return 'attribute alpharad afterwards: model deg2rad(%s), implementation %r' % (kv['al'], None if po['al'] is missing else po['al'])
+        if kv['size'] != ('-' if po['size'] is None else str(po['size'])):
+            return 'attribute size afterwards: model %s, implementation %r' % (kv['size'], po['size'])
+        if not _same_q(kv['mach'], _qs(po['mach']), False):          # 1.0001 is not a binary fraction
+            return 'attribute Mach afterwards: model %s, implementation %r' % (kv['mach'], po['mach'])
+        for k_ in ('lam', 'lps', 'plyts'):
+            if kv[k_] != str(int(po[k_])):
+                return 'attribute %s set afterwards: model %s, implementation %r' % (k_, kv[k_], po[k_])
+        return None
+
+    if parts[0].startswith('err '):
+        _, etype, etag = parts[0].split()
+        if run['outcome'][0] != 'err':
+            return 'model: raises %s (%s); implementation: returns (kernel calls %s)' % (etype, etag, [e['name'] for e in run['log']])
+        itag = 'unmapped'
+        for ty, frag, tg in GLUE_ERRORS:
+            if run['outcome'][1] == ty and frag in run['outcome'][2]:
+                itag = tg
+                break
+        if run['outcome'][1] != etype or itag != etag:
+            return 'model: raises %s (%s); implementation: raises %s: %s' % (etype, etag, run['outcome'][1], run['outcome'][2][:120])
+        return post_bad(parts[1])
+    if parts[0] != 'ok':
+        return 'driver: ' + rep[:200]
+    if run['outcome'][0] != 'ok':
+        return 'model: kernel calls %s; implementation: raises %s: %s' % (parts[1], run['outcome'][1], run['outcome'][2][:160])
+    mcalls = [c for c in parts[1].split(' & ') if c]
+    icalls = run['log']
+    shown = ['%s.%s(%s)' % (e['mod'], e['name'], ','.join(e['strs'])) for e in icalls]
+    if len(mcalls) != len(icalls):
+        return 'kernel calls: model %s; implementation %s' % (mcalls, shown)
+    for k_, (mc, e) in enumerate(zip(mcalls, icalls)):
+        head, tail = mc.split('@')
+        name, margs = head[:-1].split('(')
+        margs = margs.split(',') if margs else []
+        if name != '%s.%s' % (e['mod'], e['name']) or len(margs) != len(e['strs']) or \
+                not all(_same_q(x, y, exact) for x, y in zip(e['strs'], margs)):
+            return 'kernel call %d: model %s; implementation %s' % (k_, head, shown[k_])
+        mr, mal = [w.split('=')[1] for w in tail.split(';')]
+        ir_ = e['r']
+        if (mr == '-') != (ir_ is missing or ir_ is None) or (mr != '-' and mr != _qs(ir_)):
+            return 'kernel call %d (%s): panel.r seen by the kernel: model %s, implementation %r' % (k_, name, mr, None if ir_ is missing else ir_)
+        ial = e['al']
+        if (mal == '-') != (ial is missing) or (mal != '-' and float(np.deg2rad(float(unq(mal)))) != float(ial)):
+            return ('kernel call %d (%s): panel.alpharad seen by the kernel: model deg2rad(%s), implementation %r'
+                    % (k_, name, mal, None if ial is missing else ial))
+    info = dict(w.split('=') for w in parts[2].split())
+    p = run['p']
+    ret = run['outcome'][1]
+    stored = getattr(p, info['store'], None)
+    if (info['ret'] == '1') != (ret is not None) or (ret is not None and stored is not ret) or stored is None:
+        return 'model: result stored in %s and %sreturned; implementation: returned %s, attribute %s' % (
+            info['store'], '' if info['ret'] == '1' else 'not ', type(ret).__name__, type(stored).__name__)
+    if g['method'] in ('k0', 'kT'):
+        want_off = [] if info['lamoff'] == '-' else [info['lamoff']]
+        if [_qs(o) for o in run['offsets']] != want_off:
+            return 'laminate rebuilt with offset: model %s, implementation read_stack(offset=%r)' % (want_off, run['offsets'])
+    bad = post_bad(parts[3])
+    if bad:
+        return bad
+    dense = stored.toarray()
+    if info['imag'] == '1':
+        if np.abs(dense.real).max() > 0:
+            return 'model: purely imaginary matrix; implementation has a real part'
+        dense = dense.imag
+    elif np.iscomplexobj(dense):
+        return 'model: real matrix; implementation complex'
+    vals = parts[4].split() if len(parts) > 4 else []
+    scale = max(float(np.abs(dense).max()), 1e-300)
+    for (r_, c_), v in zip(run['probes'], vals):
+        same = (Fraction(*float(dense[r_, c_]).as_integer_ratio()) == unq(v)) if not g['real'] else close(float(dense[r_, c_]), unq(v), scale)
+        if not same:
+            return ('combination %s of the kernel results: entry [%d,%d] model %.12g, implementation %.12g'
+                    % (info['comb'], r_, c_, float(unq(v)), dense[r_, c_]))
+    for r_, c_ in zip(*np.nonzero(dense)):
+        if (int(r_), int(c_)) not in run['support']:
+            return 'combination %s: implementation has an entry at [%d,%d] outside the kernel results and their mirror images' % (info['comb'], r_, c_)
+    return None
+
+
+def glue_F_bad(g, run, zeros):
+    """after calc_k0: the panel's laminate matrix is ABD of the CURRENT definition with exactly the modelled entries zeroed (force_orthotropic)"""
+    import compmech.composite.laminate as lam_mod
+    p = run['p']
+    if g['method'] not in ('k0', 'kT') or run['outcome'][0] != 'ok' or not run['offsets']:
+        return None
+    want = lam_mod.read_stack(list(p.stack), plyts=p.plyts, laminaprops=p.laminaprops, offset=p.offset).ABD.copy()
+    if g['ortho']:
+        for i, j in zeros:
+            want[i, j] = 0.
+    if p.F is None or not np.array_equal(np.asarray(p.F), want):
+        return 'Panel.F after calc_k0 is not lam.ABD of the current definition%s' % (' with the 16/26/61/62 terms removed' if g['ortho'] else '')
+    return None
+
+
+def glue_property_case(g):
+    """the admissible C02 case (for run_case: energy oracle on the implementation) next to a glue case: the generated VALID panel the glue
+    case was derived from, with the same strip bounds (both or none), constant pre-load, offset, laminate option and placement - whatever
+    un-kernel-like state (model attribute, r, alphadeg, Ritz vector, ...) the glue case itself carries"""
+    base = g['base']
+    if g['method'] not in ('k0', 'kT'):
+        return None
+    own = GLUE_DOFS[GLUE_TAG[base['model']]] * base['m'] * base['n']
+    y1, y2 = (g['y1'], g['y2']) if (g['y1'] is not None and g['y2'] is not None) else (None, None)
+    pad = max((g['size'] - own) if g['size'] is not None else 0, 0)
+    r0 = min(g['row0'] or 0, pad)
+    return dict(base, y1=y1, y2=y2, offset=g['offset'], pad=pad, row0=r0, col0=r0, Nxx_cte=g['cte'][0], Nyy_cte=g['cte'][1],
+                Nxy_cte=g['cte'][2], force_ortho=g['ortho'])
+
+
+def glue_report(ctx, g, bad, ir, only_if_input=False):
+    """a disagreement between Model/PanelGlue.lean and the running glue: is it a failure of the property on this (or the neighbouring
+    admissible) input?  returns True when it was reported with a failing input of the property"""
+    case = glue_property_case(g)
+    p_bad = None
+    if case is not None and ir is not None:
+        try:
+            _, p_bad = run_case(ctx, case, ir, with_v=False)
+        except Exception as e:                               # noqa
+            p_bad = None
+    if p_bad:
+        ctx.violation('C02 fails on the implementation: %s  [found through the glue correspondence: %s]' % (p_bad, bad), dict(case=case, glue=g))
+        return True
+    if not only_if_input:
+        ctx.violation('model Model/PanelGlue.lean and Panel.calc_%s disagree: %s' % (g['method'], bad), dict(glue=g, tie='H panel glue'),
+                      found_input=False)
+    return False
+
+
+def glue_corpus():
+    """directed cases that run first on every run: every branch of the modelled functions and the shapes of the seeded regressions
+    (strip from y1 = 0.0, pre-load whose components cancel, d = -offset on the conical model, stale alpharad / cached matrix after a prior
+    call, Fnxny through calc_kT, two-call finalize of calc_kA, Mach == 1)"""
+    import random as _random
+    out = []
+
+    def directed(method, lean_model, **over):
+        k_ = 0
+        while True:
+            g = gen_glue_case(_random.Random(7919 * len(out) + k_), 0)
+            if g['base']['lean_model'] == lean_model:
+                break
+            k_ += 1
+        tag = GLUE_TAG[g['base']['model']]
+        b = g['base']['b']
+        g.update(method=method, real=False, model_attr=tag, r=g['base']['r'], alphadeg=g['base']['alphadeg'], stack_ok=True, lp=True, plyt=True,
+                 lps=False, plyts=False, lam=True, c='none', F=False, nx=None, ny=None, nl=False, prior=False, size=None, row0=None, col0=None,
+                 size_attr='own', alstale=None, finalize=True, y1=None, y2=None, ypat='directed', cte=(None, None, None), prepat='directed',
+                 loads=(3., None, -2.), loadpat='directed', flow='x', mu=g['base']['mu'],
+                 aero=dict(beta=2., gamma=None, aeromu=None, Mach=None, rho_air=None, V=None, speed_sound=None))
+        for k2, v in over.items():
+            g[k2] = v(b) if callable(v) else v
+        out.append(g)
+    directed('k0', 'Plate', model_attr='unset', r=None, alphadeg=None)
+    directed('k0', 'CPanel', model_attr='unset', r=2.5, alphadeg=None)
+    directed('k0', 'KPanel', model_attr='unset', r=2.5, alphadeg=10.)
+    directed('k0', 'Plate', model_attr='unset', r=None, alphadeg=10.)
+    directed('k0', 'Plate', y1=0., y2=lambda b: 0.5 * b, cte=(250., -250., None))
+    directed('k0', 'KPanel', y1=0., y2=lambda b: 0.25 * b, cte=(None, 0., -7.), finalize=False, prior=True, alstale=7.5)
+    directed('k0', 'PlateW', y1=lambda b: 0.25 * b, y2=None, cte=(0., 0., None), size=11, row0=4, col0=4)
+    directed('k0', 'Plate', F=True, size_attr='own', nl=True)
+    directed('k0', 'CPanel', c='ok', nx=3, ny=2)
+    directed('kG0', 'Plate', y1=0., y2=lambda b: 0.75 * b, loads=(None, 5., -5.))
+    directed('kG0', 'Plate', c='ok', lam=True)
+    directed('kG0', 'CPanel', c='ok', F=True, nl=True, prior=True, alstale=0.)
+    directed('kG0', 'Plate', c='ok', lam=False)
+    directed('kT', 'Plate', c='ok', F=True)
+    directed('kT', 'CPanel', y1=0., y2=lambda b: b, cte=(1., 1., -2.), loads=(0., 4., None))
+    directed('kM', 'KPanel', offset=1.5e-3, alstale=7.5, prior=True)
+    directed('kM', 'Plate', offset=-2e-3, y1=0., y2=lambda b: 0.5 * b, size=40, row0=9, col0=9, finalize=False)
+    directed('kM', 'CPanel', mu=None)
+    directed('kA', 'CPanel', aero=dict(beta=3., gamma=0.5, aeromu=None, Mach=None, rho_air=None, V=None, speed_sound=None))
+    directed('kA', 'CPanel', r=None, aero=dict(beta=None, gamma=None, aeromu=None, Mach=1, rho_air=1.1, V=700., speed_sound=330.))
+    directed('kA', 'Plate', flow='Y', finalize=False, aero=dict(beta=None, gamma=None, aeromu=None, Mach=2.5, rho_air=1.1, V=700., speed_sound=330.))
+    directed('kA', 'KPanel')
+    directed('cA', 'PlateW', finalize=False)
+    directed('cA', 'KPanel')
+    directed('cA', 'CPanel', finalize=True)
+    directed('cA', 'Plate', size_attr='absent')
+    directed('k0', 'Plate', stack_ok=False)
+    directed('k0', 'Plate', lp=False)
+    directed('kG0', 'Plate', plyt=False)
+    directed('k0', 'Plate', c='list')
+    directed('k0', 'Plate', c='2d')
+    directed('kG0', 'Plate', c='wrongsize')
+    directed('k0', 'Plate', y1=0., y2=lambda b: 0.5 * b, c='ok')
+    directed('k0', 'KPanel', cte=(None, None, -30.))
+    directed('k0', 'KPanel', F=True)
+    directed('k0', 'Plate', F=True, size=40, size_attr='absent')
+    directed('kG0', 'KPanel', loads=(None, None, None))
+    directed('kG0', 'Plate', y1=None, y2=lambda b: 0.5 * b, c='ok')
+    directed('kG0', 'PlateW', c='ok')
+    directed('kM', 'Plate', model_attr='unset')
+    directed('kA', 'Plate', model_attr='unset')
+    directed('kA', 'Plate', model_attr='invalid')
+    directed('kA', 'Plate', aero=dict(beta=None, gamma=None, aeromu=None, Mach=None, rho_air=1.1, V=700., speed_sound=330.))
+    directed('kA', 'Plate', aero=dict(beta=None, gamma=None, aeromu=None, Mach=0.5, rho_air=1.1, V=700., speed_sound=330.))
+    directed('kA', 'CPanel', aero=dict(beta=None, gamma=None, aeromu=None, Mach=1.8, rho_air=1.1, V=700., speed_sound=330.))
+    directed('kA', 'Plate', flow='z')
+    return out
+
+
+def glue_correspondence(ctx, rng, cases=None):
+    """H: recorded-kernel-call correspondence of the glue model; returns True when a disagreement was reported"""
+    from tools.common import driver
+    ir = getattr(ctx, '_panel_ir', None)
+    zeros = [tuple(int(x) for x in w.split(',')) for w in driver(['C02 orthozeros'], pid='C02')[0].split()]
+    full_run = cases is None
+    if cases is None:
+        cases = glue_corpus() + [gen_glue_case(rng, t) for t in range(ctx.scale(200, 3000))]
+    dist = dict(cases=len(cases), methods={}, models={}, model_attr={}, mode=dict(real=0, fake=0), y1y2={}, preload={}, loads={}, size_given=0,
+                row0_given=0, col0_given=0, row0_ne_col0=0, finalize={True: 0, False: 0}, c={}, Fnxny_given=0, NLgeom=0, prior_call=0,
+                offset_nonzero=0, outcomes={}, kernel_calls={}, n_calls={})
+    runs, lines = [], []
+    from compmech.panel import _panel
+    from tools.props.C05 import LineTracer
+    PanelCls = _panel.Panel
+    modelled = [PanelCls._rebuild, PanelCls.get_size, _panel.check_c, PanelCls._get_lam_F, PanelCls.calc_k0, PanelCls.calc_kG0, PanelCls.calc_kT,
+                PanelCls.calc_kM, PanelCls.calc_kA, PanelCls.calc_cA]
+    tracer = LineTracer(modelled)
+    for g in cases:
+        run = glue_run(g, tracer=tracer)
+        runs.append(run)
+        lines.append(glue_line(g, run))
+    replies = driver(lines, pid='C02')
+    if len(replies) != len(lines):
+        raise RuntimeError('C02 driver returned %d replies for %d lines' % (len(replies), len(lines)))
+    nbad = with_input = 0
+    for g, run, rep in zip(cases, runs, replies):
+        ctx.evaluations += 1
+        inc = lambda d, k: d.__setitem__(str(k), d.get(str(k), 0) + 1)
+        inc(dist['methods'], g['method'])
+        inc(dist['models'], g['base']['lean_model'])
+        inc(dist['model_attr'], g['model_attr'])
+        dist['mode']['real' if g['real'] else 'fake'] += 1
+        inc(dist['y1y2'], g['ypat'])
+        inc(dist['preload'], g['prepat'])
+        inc(dist['loads'], g['loadpat'])
+        dist['size_given'] += g['size'] is not None
+        dist['row0_given'] += g['row0'] is not None
+        dist['col0_given'] += g['col0'] is not None
+        dist['row0_ne_col0'] += (g['row0'] or 0) != (g['col0'] or 0)
+        dist['finalize'][bool(g['finalize'])] += 1
+        inc(dist['c'], g['c'])
+        dist['Fnxny_given'] += bool(g['F'])
+        dist['NLgeom'] += bool(g['nl'])
+        dist['prior_call'] += bool(g['prior'])
+        dist['offset_nonzero'] += g['offset'] != 0.
+        inc(dist['outcomes'], 'ok' if rep.startswith('ok') else ' '.join(rep.split('|')[0].split()[1:3]))
+        inc(dist['n_calls'], len(run['log']))
+        for e in run['log']:
+            inc(dist['kernel_calls'], '%s.%s' % (e['mod'], e['name']))
+        if len(run['log']) >= 1 and (g['y1'] is not None or any(x is not None for x in g['cte'])):
+            ctx.nontrivial.add(('glue', g['method'], g['fake_seed']))
+        bad = glue_compare(g, run, rep) or glue_F_bad(g, run, zeros)
+        if len(ctx.samples) < 2 and rep.startswith('ok') and len(run['log']) == 2:
+            ctx.sample(dict(glue_method=g['method'], model=g['base']['model'], y1=g['y1'], y2=g['y2'], cte=g['cte'], model_reply=rep.split('| model=')[0][:300]))
+        if bad:
+            # the first three disagreements are reported as they are; after that only one that is a failing input of the property itself
+            nbad += 1
+            if glue_report(ctx, g, bad, ir, only_if_input=nbad > 3):
+                with_input += 1
+            if (nbad >= 3 and with_input) or nbad >= 40:
+                break
+    dist['finalize'] = {str(k): v for k, v in dist['finalize'].items()}
+    cov = {}
+    for f in modelled:
+        al = tracer.all_lines(f)
+        miss = sorted(al - tracer.hit[f.__name__])
+        cov[f.__name__] = dict(lines=len(al), executed=len(al) - len(miss), missed=miss)
+        if miss and full_run and f.__name__ == '_get_lam_F':
+            ctx.notes.append('glue correspondence: lines %s of Panel._get_lam_F (first-order shear models: none in modelDB) are never executed' % miss)
+        elif miss and full_run and not nbad:
+            # coverage gate (DESIGN 2.2): a line of a modelled function the corpus never reaches is an unchecked tie
+            ctx.violation('glue correspondence: lines %s of %s in compmech/panel/_panel.py are never executed by the corpus, so the hand model '
+                          'Model/PanelGlue.lean is not compared with them' % (miss, f.__qualname__), dict(tie='H panel glue coverage', function=f.__qualname__,
+                                                                                                  lines=miss), found_input=False)
+            nbad += 1
+    dist['line_coverage_of_modelled_functions'] = cov
+    ctx.cov['glue_correspondence'] = dist
+    return nbad > 0
+
+
 def correspondence(ctx):
     ir = pc.translated(ctx)
     rng = ctx.rng
+    if glue_correspondence(ctx, rng):
+        return
     n = ctx.scale(40, 400)
     dist = dict(models={}, y1y2=0, preload=0, placed=0, generic_flags=0)
     for t in range(n):
@@ -307,5 +1000,12 @@ def replay(ctx, data):
         v_bad, p_bad = run_case(ctx, r['case'], ir)
         print('V:', v_bad, '| property on implementation:', p_bad)
         return 1 if (v_bad or p_bad) else 0
+    if r.get('glue'):
+        bad = glue_correspondence(ctx, ctx.rng, cases=[r['glue']])
+        for v in ctx.violations:
+            print('glue correspondence:', v['what'])
+        if not bad:
+            print('glue correspondence: model and implementation agree on this case')
+        return 1 if bad else 0
     print('replay:', data['what'])
     return 1
